@@ -13,6 +13,9 @@ C17 (and C10) — the web seed download slots of a torrent: `webseedActiveDownlo
   gives the slot back only for a downloader it closed (`stepFixed`, the proposed repair).
 * `slot_leak_blocks_all`: why a drift matters for C10 — with every slot leaked no source is ever started again.
 -/
+/-! NOTE (after the repair of finding C17-F3, rain commit b821f33): `stepFixed` / `runFixed` is now the code as it is
+(the driver of suite `wsloop` replays with `runFixed`); `step` / `run` is the behaviour before the repair, kept for
+the counterexample theorems (`…_full_false`, `active_drift_counterexample`). -/
 namespace Rain.Props.C17Ws
 open Rain.WsAcct
 
